@@ -95,15 +95,16 @@ class AutoMock(object):
 
 # --------------------------------------------------------------------------------------------- interpreted functions / classes
 class Closure(object):
-    def __init__(self, interp, node, ctx, frame=None, owner=None, bound=None, kind="function"):
+    def __init__(self, interp, node, ctx, frame=None, owner=None, bound=None, kind="function", cm=False):
         self.interp, self.node, self.ctx, self.frame, self.owner, self.bound, self.kind = interp, node, ctx, frame, owner, bound, kind
         self.name = getattr(node, "name", "<lambda>")
+        self.cm = cm             # decorated with contextlib.contextmanager: a call yields a GenContext instead of running the body
 
     def __repr__(self):
         return "<function %s>" % self.name
 
     def bind(self, obj):
-        return Closure(self.interp, self.node, self.ctx, self.frame, self.owner, obj, self.kind)
+        return Closure(self.interp, self.node, self.ctx, self.frame, self.owner, obj, self.kind, self.cm)
 
     def __eq__(self, o):
         return isinstance(o, Closure) and o.node is self.node and o.bound is self.bound
@@ -113,6 +114,88 @@ class Closure(object):
 
     def __call__(self, *args, **kwargs):
         return self.interp.call_closure(self, list(args), dict(kwargs))
+
+
+def _is_contextmanager(fn):
+    return any((isinstance(d, ast.Name) and d.id == "contextmanager") or (isinstance(d, ast.Attribute) and d.attr == "contextmanager") for d in fn.decorator_list)
+
+
+class _GenAbort(BaseException):
+    """thrown into a suspended context-manager generator when the analysis is abandoned."""
+
+
+class GenContext(object):
+    """The value of calling a function decorated with contextlib.contextmanager.  __enter__ runs the generator body up to its first `yield`
+    (whose value is bound to `as`), __exit__ resumes it there -- re-raising the exception of the with-body at the yield, so a try / finally or
+    try / except around the yield behaves as in Python -- and requires it to finish.  The body is interpreted in a helper thread that runs
+    only while the evaluating thread waits for it (strict hand-over), so the interpreter's state is never used concurrently."""
+    _sa_mock = True
+
+    def __init__(self, interp, closure, args, kwargs):
+        import queue
+        self.interp, self.closure, self.args, self.kwargs = interp, closure, args, kwargs
+        self.to_main, self.to_gen = queue.Queue(), queue.Queue()
+        self.state = "new"
+
+    def __repr__(self):
+        return "<context manager %s>" % self.closure.name
+
+    # -- generator side
+    def _body(self):
+        try:
+            self.interp.call_closure(self.closure, self.args, self.kwargs, suspender=self)
+            self.to_main.put(("done", None))
+        except BaseException as e:
+            self.to_main.put(("error", e))
+
+    def on_yield(self, value):
+        self.to_main.put(("yield", value))
+        thrown = self.to_gen.get()
+        if thrown is not None:
+            raise thrown
+        return None
+
+    # -- evaluating side
+    def enter(self):
+        import threading
+        if self.state != "new":
+            raise ProgramError(RuntimeError("context manager %s entered twice" % self.closure.name))
+        depth = self.interp.depth
+        t = threading.Thread(target=self._body, daemon=True)
+        t.start()
+        what, v = self.to_main.get()
+        if what == "yield":
+            self.state = "suspended"
+            return v
+        self.state = "finished"
+        self.interp.depth = depth
+        if what == "error":
+            raise v
+        raise ProgramError(RuntimeError("generator %s didn't yield" % self.closure.name))
+
+    def exit(self, pe):
+        """resume after the with-body (pe: the ProgramError it raised, or None); -> True if the exception is suppressed."""
+        if self.state != "suspended":
+            return False
+        self.to_gen.put(pe)
+        what, v = self.to_main.get()
+        if what == "yield":
+            self.abort()
+            raise ProgramError(RuntimeError("generator %s didn't stop" % self.closure.name))
+        self.state = "finished"
+        if what == "error":
+            if v is pe:
+                return False                  # the generator let the body's exception through
+            raise v
+        return pe is not None                 # finished normally: an exception thrown in was handled by the generator
+
+    def abort(self):
+        if self.state == "suspended":
+            self.state = "finished"
+            depth = self.interp.depth
+            self.to_gen.put(_GenAbort())
+            self.to_main.get()
+            self.interp.depth = depth
 
 
 class ClassRef(object):
@@ -140,17 +223,20 @@ class ClassRef(object):
                 if isinstance(s, ast.FunctionDef):
                     decos = [d.id if isinstance(d, ast.Name) else (d.attr if isinstance(d, ast.Attribute) else "?") for d in s.decorator_list]
                     kind = "function"
+                    cm = False
                     for d in decos:
                         if d in ("staticmethod", "classmethod", "property"):
                             kind = d
                         elif d == "setter":
                             kind = "setter"
+                        elif d == "contextmanager":
+                            cm = True
                         else:
                             kind = "unsupported:" + d
                     if kind == "setter":
                         m[s.name + ".setter"] = Closure(self.interp, s, self.ctx, None, self, None, kind)
                     else:
-                        m[s.name] = Closure(self.interp, s, self.ctx, None, self, None, kind)
+                        m[s.name] = Closure(self.interp, s, self.ctx, None, self, None, kind, cm)
                 elif isinstance(s, ast.Assign) and len(s.targets) == 1 and isinstance(s.targets[0], ast.Name):
                     m[s.targets[0].id] = ("expr", s.value)
                 elif isinstance(s, ast.ClassDef):          # nested class (PatternRegistry.DefaultPattern): a class-level attribute
@@ -233,6 +319,7 @@ class Frame(object):
         self.nonlocals = set()
         self.globals_ = set()
         self.yields = None
+        self.suspender = None    # GenContext whose generator body this frame runs (a `yield` here suspends instead of collecting)
 
     def lookup(self, name):
         f = self
@@ -313,7 +400,7 @@ class ModCtx(object):
         if ov is not _MISSING:
             v = ov
         elif isinstance(b, ast.FunctionDef):
-            v = Closure(it, b, self)
+            v = Closure(it, b, self, cm=_is_contextmanager(b))
         elif isinstance(b, ast.ClassDef):
             v = ClassRef(it, b, self)
         elif b[0] == "import":
@@ -656,7 +743,9 @@ class Interp(object):
         except (TypeError, AttributeError) as e:
             raise Unsupported("call %s at line %s: %s: %s" % (unparse(node)[:80] if node is not None else f, getattr(node, "lineno", "?"), type(e).__name__, e))
 
-    def call_closure(self, c, args, kwargs):
+    def call_closure(self, c, args, kwargs, suspender=None):
+        if c.cm and suspender is None:
+            return GenContext(self, c, list(args), dict(kwargs))
         self.depth += 1
         if self.depth > 60:
             self.depth -= 1
@@ -669,7 +758,9 @@ class Interp(object):
             self.bind_args(node, args, kwargs, fr, c)
             if isinstance(node, ast.Lambda):
                 return self.ev(node.body, fr)
-            is_gen = _has_yield(node)
+            is_gen = _has_yield(node) and suspender is None
+            if suspender is not None:
+                fr.suspender = suspender
             if is_gen:
                 fr.yields = []
             try:
@@ -1048,19 +1139,24 @@ class Interp(object):
 
     def e_Yield(self, n, fr):
         f = fr
-        while f is not None and f.yields is None:
+        while f is not None and f.yields is None and f.suspender is None:
             f = f.parent
         if f is None:
             raise Unsupported("yield outside a generator function")
-        f.yields.append(self.ev(n.value, fr) if n.value is not None else None)
+        v = self.ev(n.value, fr) if n.value is not None else None
+        if f.suspender is not None:
+            return f.suspender.on_yield(v)
+        f.yields.append(v)
         return None
 
     def e_YieldFrom(self, n, fr):
         f = fr
-        while f is not None and f.yields is None:
+        while f is not None and f.yields is None and f.suspender is None:
             f = f.parent
         if f is None:
             raise Unsupported("yield outside a generator function")
+        if f.suspender is not None:
+            raise Unsupported("yield from inside a generator-based context manager")
         f.yields.extend(self.iterate(self.ev(n.value, fr), n))
         return None
 
@@ -1308,18 +1404,64 @@ class Interp(object):
                 self.block(s.finalbody, fr)
 
     def s_With(self, s, fr):
-        for it in s.items:
-            v = self.ev(it.context_expr, fr)
-            if not isinstance(v, AutoMock):
-                raise Unsupported("with statement on %r" % (v,))
+        self._with(s, 0, fr)
+
+    def _with(self, s, i, fr):
+        """items i.. of a with statement, then its body: __enter__ / bind `as` / body / __exit__ (also when the body raises, returns, breaks)."""
+        if i == len(s.items):
+            self.block(s.body, fr)
+            return
+        it = s.items[i]
+        v = self.ev(it.context_expr, fr)
+        if isinstance(v, AutoMock):
+            # an unmodelled context manager is inert: the body runs, nothing is suppressed
             if it.optional_vars is not None:
                 self.assign(it.optional_vars, v, fr)
-        self.block(s.body, fr)
+            self._with(s, i + 1, fr)
+            return
+        enter, exit_, abort = self._context_protocol(v, s)
+        val = enter()
+        if it.optional_vars is not None:
+            self.assign(it.optional_vars, val, fr)
+        try:
+            self._with(s, i + 1, fr)
+        except ProgramError as pe:
+            if not exit_(pe):
+                raise
+            return
+        except (_Return, _Break, _Continue):
+            exit_(None)
+            raise
+        except BaseException:
+            abort()
+            raise
+        exit_(None)
+
+    def _context_protocol(self, v, node):
+        """-> (enter(), exit(program error or None) -> suppressed?, abort()) for a context manager value."""
+        if isinstance(v, GenContext):
+            return v.enter, v.exit, v.abort
+        if isinstance(v, Instance):
+            en, c1 = v._cls.find("__enter__")
+            ex, c2 = v._cls.find("__exit__")
+            if en is None or ex is None:
+                raise ProgramError(AttributeError("%s object does not support the context manager protocol" % v._cls.name), getattr(node, "lineno", None))
+            en, ex = self._member(en, c1, v), self._member(ex, c2, v)
+
+            def exit_(pe):
+                return self.truth(ex(type(pe.exc), pe.exc, None) if pe is not None else ex(None, None, None))
+            return (lambda: en()), exit_, (lambda: None)
+        if getattr(v, "_sa_mock", False) and hasattr(type(v), "__enter__") and hasattr(type(v), "__exit__"):
+            def exit_(pe):
+                return bool(v.__exit__(type(pe.exc), pe.exc, None) if pe is not None else v.__exit__(None, None, None))
+            return v.__enter__, exit_, (lambda: None)
+        raise Unsupported("with statement on %r at line %s" % (v, getattr(node, "lineno", "?")))
 
     def s_FunctionDef(self, s, fr):
-        if s.decorator_list:
+        cm = _is_contextmanager(s)
+        if s.decorator_list and not (cm and len(s.decorator_list) == 1):
             raise Unsupported("decorated nested function %s" % s.name)
-        fr.env[s.name] = Closure(self, s, fr.ctx, fr, fr.owner)
+        fr.env[s.name] = Closure(self, s, fr.ctx, fr, fr.owner, cm=cm)
 
     def s_ClassDef(self, s, fr):
         raise Unsupported("nested class definition %s" % s.name)
